@@ -20,15 +20,35 @@ NA = {
 }
 
 PENDING = {
-    "C03": "claimed in DESIGN.md (prange-sim); check not built yet, will move to checks when it is",
-    "C09": "claimed in DESIGN.md (timer-sim); check not built yet",
-    "C13": "claimed in DESIGN.md (noise-sim); check not built yet",
     "C15": "claimed in DESIGN.md (alias-sim); check not built yet",
     "C17": "claimed in DESIGN.md (mpi-sim); check not built yet",
-    "C20": "claimed in DESIGN.md (storage-sim); check not built yet",
 }
 
 CHECKS = {
+    "C03": dict(
+        engine="prange-sim", design_ref="DESIGN.md 4.1",
+        technique="deterministic simulation of numba prange kernels: the real kernel source run by 2-5 simulated worker threads, a seeded scheduler (random walk / PCT / chunk-border / starvation) deciding the interleaving at every array load and store; bit-equality with serial execution, plus agreement of all public routes as the per-run oracle",
+        text="Every kernel py-pde would compile with parallel=True (2-d/3-d Cartesian and cylindrical operators) is executed in python mode with its prange loop body handed to baton-passing threads; shared state is exactly what numba shares (arrays, closure cells, buffers allocated before the loop), private state what numba privatises. Seeded search over grids, operators and options, thresholds on both sides of the grid size, worker counts (also more workers than rows), partitions (static, round-robin, reversed, dynamic) and schedules; result must be bit-identical to serial. On every run the other routes of C03 (field method, make_operator with/without out, interpreted vs compiled ghost-cell setter, scipy backend, sparse Laplace matrix, operator built on the other side of the threshold) are compared at rtol 1e-10.",
+        note="Trusts numba's documented prange semantics and that CPython executes the same kernel source as LLVM would compile; numba's own parfor lowering and thread pool are replaced, not tested (the thorough tier adds an uncontrolled real-thread JIT confirmation). Kernels with loop-carried scalars would be reported unsupported (none today).",
+    ),
+    "C09": dict(
+        engine="timer-sim", design_ref="DESIGN.md 4.5",
+        technique="deterministic simulation of interrupt timers under a simulated clock: seeded non-decreasing query histories (stalls, exact hits, one-ulp-early/late, clock jumps, queries before the previous answer, copies) checked call by call against an independent lattice model per interrupt class",
+        text="Each history initialises one deterministic interrupt object (constant, fixed, logarithmic, geometric; also via parse_interrupt) and asks up to 200 non-decreasing times composed of clock-fault moves; every answer is checked for not-earlier-than-query, strictly-later-than-previous, membership in the defining set, no needless skip, and infinity forever after exhaustion. About 150k histories per quick run.",
+        note="Reference models written from the documentation. Domain: periods >= 2e-9*max(1,|t|), geometric factor-1 in [1e-8,100], logarithmic factor in [1,4.2]; answers within a few ulp of a threshold accept both outcomes. copy() of a live FixedInterrupts is outside the property (counted, not asserted).",
+    ),
+    "C13": dict(
+        engine="noise-sim", design_ref="DESIGN.md 4.6",
+        technique="deterministic simulation with the simulator owning the random source: a recording numpy Generator behind the rng= seam logs every draw, the log is replayed into an independent reference SDE integrator; tracker schedules that cut the run into segments are the schedule dimension",
+        text="Real eq.solve runs (euler, milstein, implicit; numpy backend, numba backend in python mode) on grids with non-uniform cell volumes, all field ranks and collections, scalar/per-component/per-field/multiplicative variances and all noise interpretations. Checked: exactly one standard_normal(shape) per step and nothing else drawn, draws are the successive draws of the seeded bit generator, every per-step state equals the documented formula to 1e-12, bit-identical reproducibility also under different tracker sets, zero variance = deterministic run with zero draws.",
+        note="Reference integrator is ~20 lines of numpy written from the property text. Implicit solver checked for linear rates (closed-form fixed point). numba path: formula only (the property claims no bit reproducibility there). Variances <= 1e-14 are not generated (see known_findings / DESIGN).",
+    ),
+    "C20": dict(
+        engine="storage-sim", design_ref="DESIGN.md 4.9",
+        technique="deterministic simulation with fault injection on the storage API: seeded histories of sessions, appends, clears, reads and derived views on pools of storages and fields, with injected faults (aborted sessions, refused appends, raising apply functions, simulated runs stopped or aborted by another tracker) against a list-of-frames reference model",
+        text="8-45 operations per history on up to 5 live MemoryStorage objects and 6 fields of all classes; after every operation every storage is compared with its model (times, len, every frame byte for byte, no aliasing between stored frames, read-backs and live fields; failed operations leave nothing half-written; mode semantics; derived views consistent). Real simulations under the simulated clock write through StorageTracker and are stopped or aborted mid-session.",
+        note="Model written from the docstrings; where the documentation is silent both outcomes are accepted (append outside a session, implicit times, frames exactly on an extract_time_range bound) and counted in the evidence.",
+    ),
     "C04": dict(
         engine="history-sim", design_ref="DESIGN.md 4.2",
         technique="deterministic simulation of a user session: seeded histories of public-API operations with injected environment events (gc, cache clears, dropped objects, poisoned re-allocation), each operation compared with the same call in a pristine forked interpreter under another hash seed",
